@@ -227,8 +227,11 @@ def compare(tl_tree, ad_tree, items, active):
     valuation; the additional linearity vectors (2*e_k, sum, weighted) are run
     for the largest n of every p: with n = 4 every loop kind iterates and every
     condition takes both values, so every statement that can execute does."""
+    # real variables that some statement of the body assigns
+    written = {stmt[1][0] for stmt in G.statements(items)}
     out = {"verdict": "ok", "runs": 0, "passive_note": None,
-           "passive_constant": True}
+           "passive_constant": not any(v in written and v not in active
+                                       for v in G.REALS)}
     vals = valuations(items, active)
     nmax = max(n for _p, n in vals)
     for pval, nval in vals:
@@ -243,8 +246,7 @@ def compare(tl_tree, ad_tree, items, active):
                        msg=f"{where}: tangent-linear code: "
                            f"{tlm.problem or tlm.passive_dep}")
             return out
-        if tlm.passive_out != tlm.passive_in:
-            out["passive_constant"] = False
+        out["nval"] = nval
         adm = probe(ad_tree, G.AD_ROUTINE, mval, pval, active, full)
         if adm.problem is not None:
             kind = adm.problem[0]
@@ -280,13 +282,17 @@ def compare(tl_tree, ad_tree, items, active):
             return out
         for cell in sorted(adm.passive_out, key=str):
             before = tlm.passive_in[cell]
-            if tlm.passive_out[cell] == before:
+            if cell[0] not in written:
+                # no statement of the kernel assigns this passive variable
+                if tlm.passive_out[cell] != before:
+                    raise Inadmissible(f"tangent-linear code changes "
+                                       f"{show_cell(cell)}")
                 if adm.passive_out[cell] != before:
                     out.update(
                         verdict="viol", kind="passive-modified",
                         classes=[cell[0]],
                         msg=f"{where}: passive {show_cell(cell)}="
-                            f"{show_val(before)} is left unchanged by the "
+                            f"{show_val(before)} is not assigned by the "
                             f"tangent-linear code but the adjoint code sets it "
                             f"to {show_val(adm.passive_out[cell])}")
                     return out
